@@ -83,6 +83,9 @@ class Layer:
         return f
 
 
+READ_IDS = None          # ids of the reads the fake collector yields (default: N_READS distinct ones)
+
+
 class FakeCollector:
     def __init__(self, chr_id, *a, **k):
         self.alignment_stat_counter = stats.EnumStats()
@@ -91,8 +94,9 @@ class FakeCollector:
     def process(self):
         gi = GeneInfo.from_region(self.chr_id, 1, 1000)
         reads = []
-        for i in range(N_READS):
-            ra = ia.ReadAssignment("read_%d" % i, ia.ReadAssignmentType.intergenic, ia.IsoformMatch(ia.MatchClassification.intergenic))
+        ids = READ_IDS if READ_IDS is not None else ["read_%d" % i for i in range(N_READS)]
+        for i in range(len(ids)):
+            ra = ia.ReadAssignment(ids[i], ia.ReadAssignmentType.intergenic, ia.IsoformMatch(ia.MatchClassification.intergenic))
             ra.exons = [(10 + i, 90 + i)]
             ra.corrected_exons = list(ra.exons)
             ra.polya_info = PolyAInfo(-1, -1, -1, -1)
@@ -102,7 +106,7 @@ class FakeCollector:
         yield gi, reads
 
 
-def stage(work_dir, resume, layer):
+def stage(work_dir, resume, layer, high_memory=False, full=False):
     saved = (dp.Fasta, dp.pysam, dp.AlignmentCollector, dp.__dict__.get("open"), assignment_io.__dict__.get("open"), stats.__dict__.get("open"))
     dp.Fasta = lambda *a, **k: {"chr1": "A" * 1000}
     dp.pysam = Obj(AlignmentFile=lambda *a, **k: Obj(close=lambda: None))
@@ -112,8 +116,10 @@ def stage(work_dir, resume, layer):
     stats.open = layer.open
     try:
         sample = Obj(out_raw_file=os.path.join(work_dir, "smp.save"), file_list=[["x.bam"]], illumina_bam=None, readable_names_dict={})
-        args = Obj(reference="ref.fa", fai_file_name=None, high_memory=False, resume=resume, genedb=None, read_group=None)
+        args = Obj(reference="ref.fa", fai_file_name=None, high_memory=high_memory, resume=resume, genedb=None, read_group=None)
         groups, stat, processed = dp.collect_reads_in_parallel(sample, "chr1", args)
+        if full:
+            return groups, processed
         return {"processed_reads": len(processed), "groups": sorted(groups)}
     finally:
         dp.Fasta, dp.pysam, dp.AlignmentCollector = saved[0], saved[1], saved[2]
